@@ -71,12 +71,20 @@ def cases(draw, nums=("frac",), mode=None):
             Z, Q = [mul(z) for z in Z], [mul(q) for q in Q]
     if draw(st.booleans()):
         nodes = draw(st.permutations(nodes))  # the statement does not ask for sorted nodes
-    return {"U": U, "p": p, "w": w, "nodes": list(nodes), "Z": Z, "Q": Q, "mode": mode, "dim": dim,
+    zform = draw(st.sampled_from(["frac", "frac", "int", "npint"])) if "frac" in nums and mode in ("noisy", "default-nodes") else "frac"
+    if zform != "frac":
+        # all-integer data (Python ints or an int64 array): the fitted control points are still rational numbers
+        rnd = (lambda x: F(int(x))) if dim == 0 else (lambda x: [F(int(c)) for c in x])
+        Z = [rnd(z) for z in Z]
+    return {"U": U, "p": p, "w": w, "nodes": list(nodes), "Z": Z, "Q": Q, "mode": mode, "dim": dim, "zform": zform,
             "decoy": draw(st.integers(0, 2)) == 0,
             "num": draw(st.sampled_from(list(nums)))}
 
 
-def to_lib_points(Z, dim, num):
+def to_lib_points(Z, dim, num, zform="frac"):
+    if zform in ("int", "npint") and Z:
+        ints = [int(z) for z in Z] if dim == 0 else [[int(c) for c in z] for z in Z]
+        return ints if zform == "int" else np.array(ints, dtype="int64")
     if dim == 0:
         return [lib.conv_val(z, num) for z in Z]
     return lib.conv_points([list(z) for z in Z], num) if Z else []
@@ -148,7 +156,9 @@ def check(case, out):
             [float(z[0]) for z in Zf] if dim == 0 else np.array([[float(x) for x in z] for z in Zf]))
         Zf = [tuple(oracle.frac(x) for x in lib.point_tuple(z)) for z in Z]
     else:
-        Z = to_lib_points(case["Z"][:m] if mode != "default-nodes" else case["Z"], dim, num)
+        Z = to_lib_points(case["Z"][:m] if mode != "default-nodes" else case["Z"], dim, num, case.get("zform", "frac"))
+        if case.get("zform", "frac") != "frac":
+            out.cls("data=" + case["zform"])
         if len(Z) != m:
             out.exclude("not-enough-data")
             return
